@@ -45,6 +45,96 @@ INV_SNIPPETS = {
     "inv_ieval": '(1,eval)("%(obj)s.%(prop)s = %(x)d")',          # no root expression contains a double quote
     "inv_loop": "%(obj)s.%(prop)s = %(x)d; while (true) {}",
 }
+# family T: ways of making an object from text at run time (the expression is evaluated by tx_make / tx_makei and the
+# result kept in the global h).  Candidates; the discovery reports which paths from h keep a marker, C12.tla selects.
+TEXT_FORMS = {
+    "new_function": "new Function('a', 'return a')",
+    "call_function": "Function('a', 'return a')",
+    "ieval_function": "(1,eval)('(function(a){ return a })')",
+    "ieval_array": "(1,eval)('[[1], 2]')",
+    "ieval_object": "(1,eval)('({a: {b: 1}})')",
+    "ieval_regex": "(1,eval)('/a/g')",
+    "new_regexp": "new RegExp('a', 'g')",
+    "call_regexp": "RegExp('a', 'g')",
+    "json_object": "JSON.parse('{\"a\": {\"b\": 1}}')",
+    "json_array": "JSON.parse('[[1], 2]')",
+    "function_result_object": "new Function('return {a: {b: 1}}')()",
+    "function_result_array": "new Function('return [[1], 2]')()",
+    "function_result_function": "new Function('return function(a){ return a }')()",
+    "function_result_regex": "new Function('return /a/g')()",
+    "literal_function": "function(a){ return a }",
+    "literal_object": "{a: {b: 1}}",
+    "literal_array": "[[1], 2]",
+    "literal_regex": "/a/g",
+    "new_object": "new Object()",
+    "new_array": "new Array(2)",
+    "object_create": "Object.create(Object.prototype)",
+    "new_error": "new Error('x')",
+}
+TEXT_VIAS = {"tself": ("h", None), "tproto": ("h.prototype", None), "tnest": ("h.a", None), "telem": ("h[0]", None),
+             "tmem": ("h", "lastIndex"), "tgpo": ("Object.getPrototypeOf(h)", None),
+             "tpgpo": ("Object.getPrototypeOf(h.prototype)", None)}
+
+# family K: statement S that creates a binding with value %(x)d and assigns a closure over it to the (declared) global h;
+# statement O that creates a binding of the same kind with value %(x)d and touches no global.  No double quotes.
+KEPT = {
+    "catch": ("try { throw %(x)d } catch (e) { h = function(){ return e } }",
+              "try { throw %(x)d } catch (e) { }"),
+    "catch_in_function": ("h = (function(){ try { throw %(x)d } catch (e) { return function(){ return e } } })()",
+                          "(function(){ try { throw %(x)d } catch (e) { return e } })()"),
+    "function_own_name": ("h = function me(q){ return q ? %(x)d : me(1) }",
+                          "(function me(q){ return q ? %(x)d : me(1) })(0)"),
+    "arguments": ("h = (function(){ var a = arguments; return function(){ return a[0] } })(%(x)d)",
+                  "(function(){ return arguments[0] })(%(x)d)"),
+    "local": ("h = (function(){ var v = %(x)d; return function(){ return v } })()",
+              "(function(){ var v = %(x)d; return v })()"),
+    "parameter": ("h = (function(v){ return function(){ return v } })(%(x)d)",
+                  "(function(v){ return v })(%(x)d)"),
+    "bound_argument": ("h = (function(v){ return v }).bind(null, %(x)d)",
+                       "(function(v){ return v }).bind(null, %(x)d)()"),
+    "bound_this": ("h = (function(){ return this.v }).bind({v: %(x)d})",
+                   "(function(){ return this.v }).bind({v: %(x)d})()"),
+}
+ROUTES = {"top": "%s", "ieval": '(1,eval)("%s")', "newfn": 'new Function("%s")()'}
+
+# family V: carriers (the value kept in h) and uses (how a later eval hands it the callback CB)
+CARRIERS = {
+    "array": "[1, 2, 3]",
+    "function": "function(cb){ return cb(7) }",
+    "closure": "(function(){ var n = 0; return function(cb){ n = n + 1; return cb(n) } })()",
+    "arrow": "(cb => cb(7))",
+    "bound_function": "(function(cb){ return cb(7) }).bind(null)",
+    "regex": "/b/g",
+    "accessor_literal": "{ get p(){ return this.cb(7) } }",
+    "accessor_defined": "Object.defineProperty({}, 'p', { get: function(){ return this.cb(7) }, "
+                        "set: function(v){ this.cb(v) } })",
+    "object_method": "{ m: function(cb){ return cb(7) } }",
+    "object_tostring": "{ toString: function(){ return this.cb(7) } }",
+    "native_array_forEach": "[1, 2, 3].forEach",
+    "native_array_sort": "[3, 1, 2].sort",
+    "native_string_replace": "'abc'.replace",
+    "native_function_call": "(function(cb){ return cb(7) }).call",
+    "native_function_apply": "(function(cb){ return cb(7) }).apply",
+}
+USES = {
+    "call_direct": "h(CB)", "dot_call": "h.call(null, CB)", "dot_apply": "h.apply(null, [CB])",
+    "replace": "'abc'.replace(h, CB)", "replaceAll": "'abc'.replaceAll(h, CB)",
+    "get": "(h.cb = CB, h.p)", "set": "(h.cb = CB, h.p = 1)", "call_method": "h.m(CB)", "concat": "(h.cb = CB, '' + h)",
+    "call_regex": "h(/b/, CB)", "call_null": "h(null, CB)", "apply_null": "h(null, [CB])",
+}
+CARRY_SNIPPETS = {      # @U@ = the use with its callback; the callback first commits g = x
+    "cv_use": ("var g; @U@", "function(v){ g = %(x)d; return v }"),
+    "cv_catch": ("var g; var r = 1; try { @U@; r = 2 } catch (e) { r = 3 } r",
+                 "function(v){ g = %(x)d; throw new Error('boom') }"),
+    "cv_catchfn": ("var g; (function(){ var r = 1; try { @U@; r = 2 } catch (e) { r = 3 } return r })()",
+                   "function(v){ g = %(x)d; throw new Error('boom') }"),
+    "cv_throw": ("var g; @U@", "function(v){ g = %(x)d; throw new Error('boom') }"),
+    "cv_loop": ("var g; try { @U@ } catch (e) { }", "function(v){ g = %(x)d; while (true) {} }"),
+    "cv_mem": ("var g; try { @U@ } catch (e) { }", "function(v){ g = %(x)d; return (function r(){ return r() + 1 })() }"),
+    # the work is done once, however often the carrier calls back
+    "cv_work": ("var g; (function(){ var w = 0; @U@ })()",
+                "function(v){ g = %(x)d; if (w === 0) { w = 1; for (var i = 0; i < %(n)d; i++) { } } return v }"),
+}
 MARKER = "zq"
 VIAS = ["self", "proto", "gpo", "inst", "mem", "pmem"]
 # literal roots (objects that are reachable without a global name): their prototype objects
@@ -55,6 +145,9 @@ LITERAL_ROOTS = ["[]", "({})", "(function(){})", "(x => x)", "''", "(0)", "true"
 def target_of(rec):
     """inventory record -> (object expression, property name).  Pure rendering."""
     root, via = rec["root"], rec["via"]
+    if via in TEXT_VIAS:
+        obj, prop = TEXT_VIAS[via]
+        return obj, prop or MARKER
     if via == "self":
         return root, MARKER
     if via == "proto":
@@ -70,9 +163,40 @@ def target_of(rec):
     raise ValueError(via)
 
 
-def read_expr(obj, prop):
+def mark_of(expr):
     """the marker as a small integer: a positive integer written by a history, 0 for anything else"""
-    return ("(function(v){ return (typeof v === 'number' && v === (v | 0) && v >= 1) ? v : 0 })(%s.%s)" % (obj, prop))
+    return "(function(v){ return (typeof v === 'number' && v === (v | 0) && v >= 1) ? v : 0 })(%s)" % expr
+
+
+def read_expr(obj, prop):
+    return mark_of("%s.%s" % (obj, prop))
+
+
+def render_carry(kind, form, x, n=0):
+    """family V: the program of one event.  Pure rendering of the form the specification chose."""
+    if kind == "cv_make":
+        return "var h = " + CARRIERS[form["cr"]]
+    prog, cb = CARRY_SNIPPETS[kind]
+    use = USES[form["use"]] if form["cr"] != "array" else "h.%s(CB)" % form["use"]
+    return prog.replace("@U@", use.replace("CB", cb % {"x": x, "n": n}))
+
+
+def render_kept(kind, form, x):
+    """family K: the program of one event."""
+    mk, ot = KEPT[form["kb"]]
+    if kind == "kb_make":
+        return "var h; " + ROUTES[form["mk"]] % (mk % {"x": x})
+    body = ot % {"x": x}
+    if kind == "kb_other_err":
+        body += "; throw new Error(1)"
+    return ROUTES[form["ot"]] % body
+
+
+def render_text(kind, rec, x, target):
+    """family T: the program of one event."""
+    if kind in ("tx_make", "tx_makei"):
+        return "var h; (function(){ var hp = h; h = %s; return (hp === h) ? 1 : 2 })()" % TEXT_FORMS[rec["root"]]
+    return "%s.%s = %d" % (target[0], target[1], x)
 
 # the probe is installed once per context (rendering it for every step costs 1.4 ms of parsing)
 PROBE_SRC = (
@@ -80,9 +204,9 @@ PROBE_SRC = (
     "try { g } catch (x) { dg = 0 } try { f } catch (x) { df = 0 } return ["
     "typeof g === 'undefined' ? 0 : (typeof g === 'number' ? 1 : 9), typeof g === 'undefined' ? 0 : g, "
     "typeof f === 'undefined' ? 0 : (typeof f === 'function' ? 2 : 9), typeof f === 'function' ? f() : 0, "
-    "o.zo, Math.zm, a.za, String.zs, e.ze, dg, df]; }"
+    "o.zo, Math.zm, a.za, String.zs, e.ze, dg, df, typeof h === 'undefined' ? 0 : 1]; }"
 )
-NPROBE = 11
+NPROBE = 12
 
 
 def cls(v):
@@ -105,11 +229,12 @@ def cls(v):
     return -1
 
 
-def probe(api, ctx, baseline, ptr, inv=False):
+def probe(api, ctx, baseline, ptr, names, inv=False):
     gg = cls(ctx.get("g"))
     fg = cls(ctx.get("f"))
-    # family I: the marker on the inventory target of this history is read through its access path in the same evaluation
-    out = api.run(lambda: ctx.eval("[__p(), __q()]" if inv else "[__p(), 0]"), tick=TICK, cap=20000, wall=60.0)
+    # the marker of this history (families I, T, K) is read through its access path in the same evaluation
+    out = api.run(lambda: ctx.eval("[__p(), __q()]" if inv else "[__p(), 0]"), tick=TICK, cap=20000, wall=60.0,
+                  keep_clock=True)
     pv = out.get("pv")
     if (out["o"] == "value" and isinstance(pv, list) and len(pv) == 2 and isinstance(pv[0], list)
             and len(pv[0]) == NPROBE):
@@ -118,15 +243,29 @@ def probe(api, ctx, baseline, ptr, inv=False):
     else:
         p = [-1] * NPROBE       # the context is not usable: a mismatch, judged by the specification
         q = -1
-    extra = len([n for n in ctx._globals if n not in baseline and n not in ("g", "f")])
-    return [gg, p[0], p[1], fg, p[2], p[3]] + p[4:9] + [ptr, extra] + p[9:11] + [q]
+    # unexpected global names a script can write (the engine's internal slots - "e@7", the renamed parameter of a
+    # program-level catch clause - are not names of the language)
+    extra = len([n for n in ctx._globals if n not in baseline and n not in names and n.isidentifier()])
+    return [gg, p[0], p[1], fg, p[2], p[3]] + p[4:9] + [ptr, extra] + p[9:11] + [q, p[11]]
 
 
 _PROBE_FN = []
-_TARGET_FN = {}        # (object expression, property) -> compiled reader of the marker, one per child process
+_TARGET_FN = {}        # reader source -> compiled reader of the marker, one per child process
+_WORK_N = {}           # (form, limits) is not needed: the loop count depends on the engine only
 
 
-def new_ctx(api, lim, target=None):
+def reader_of(fam, target, rec=None):
+    """-> (source of the expression __q returns, program after which it must read 7 on a scratch context, program that
+    undoes it or None)"""
+    if fam == "kept":       # the value the kept closure returns
+        return "(typeof h === 'function') ? %s : 0" % mark_of("h()"), "var h = function(){ return 7 }", None
+    if fam == "text":       # the marker on the path from the made object; 0 while this context has not made one
+        return ("(typeof h === 'undefined') ? 0 : %s" % read_expr(*target),
+                "var h = %s; %s.%s = 7" % ((TEXT_FORMS[rec["root"]],) + target), None)
+    return read_expr(*target), "%s.%s = 7" % target, "delete %s.%s" % target
+
+
+def new_ctx(api, lim, reader=None):
     """A fresh context with the probe installed.  The probe function is compiled once per child process and
     handed to every context with Context.set (a script function object carries no context state)."""
     ctx = api.Context(time_limit=lim["t"] * TICK, memory_limit=lim["m"])
@@ -137,43 +276,53 @@ def new_ctx(api, lim, target=None):
         chk = api.Context()
         chk.set("__p", fn)
         got = chk.eval("__p()")
-        if got != [0] * 4 + [None] * 5 + [0, 0]:
+        if got != [0] * 4 + [None] * 5 + [0, 0, 0]:
             raise RuntimeError("probe function does not work when shared between contexts: %r" % (got,))
+        chk.eval("var h = 1")
+        if chk.eval("__p()")[11] != 1:
+            raise RuntimeError("probe function does not see the calling context's global h")
         _PROBE_FN.append(fn)
     ctx.set("__p", _PROBE_FN[0])
     # exposed callables for the re-entrant snippet: evaluate on the same context / report the current-VM pointer
     ctx.set("__re", lambda n: (ctx.eval("var g = %d" % int(n)), None)[1])
     ctx.set("__ptr", lambda: 0 if ctx._current_vm is None else 1)
-    if target is not None:
-        if target not in _TARGET_FN:
+    if reader is not None:
+        src, setup, undo = reader
+        if src not in _TARGET_FN:
             scratch = api.Context()
-            scratch.eval("function __q(){ return %s }" % read_expr(*target))
+            scratch.eval("function __q(){ return %s }" % src)
             fn = scratch._globals["__q"]
             chk = api.Context()
             chk.set("__q", fn)
-            chk.eval("%s.%s = 7" % target)
+            if chk.eval("__q()") != 0:
+                raise RuntimeError("marker reader %s does not read 0 on a fresh context" % src)
+            chk.eval(setup)
             got = chk.eval("__q()")
-            chk.eval("delete %s.%s" % target)
+            if undo:
+                chk.eval(undo)
             if got != 7:        # the function must resolve the path in the context that calls it
-                raise RuntimeError("marker reader for %s.%s does not work when shared between contexts" % target)
-            _TARGET_FN[target] = fn
-        ctx.set("__q", _TARGET_FN[target])
+                raise RuntimeError("marker reader %s does not work when shared between contexts" % src)
+            _TARGET_FN[src] = fn
+        ctx.set("__q", _TARGET_FN[src])
     return ctx, frozenset(ctx._globals)
 
 
 def discover(case, api):
     """Family I, the inventory: every global name of a fresh context (and the literal roots) x every via, with
     ok = 1 iff on a scratch context the path designates an object/function, the marker reads 0 there, a number
-    written to it reads back, and deleting it makes it read 0 again.  Raw facts; C12.tla decides what is a target."""
+    written to it reads back, and deleting it makes it read 0 again.  Raw facts; C12.tla decides what is a target.
+    Family T: the same test for every way of making an object from text (lit = 2) x every path from the made object."""
     names = sorted(api.Context()._globals)
     recs = []
 
-    def test(obj, prop):
+    def test(obj, prop, setup="", existing=False):
         s = api.Context(time_limit=1.0)
         rd = read_expr(obj, prop)
-        src = ("var r = 0; var o = %s; if ((typeof o === 'object' || typeof o === 'function') && o !== null) { "
-               "if (%s === 0) { %s.%s = 7; if (%s === 7) { delete %s.%s; if (%s === 0) { r = 1 } } } } r"
-               % (obj, rd, obj, prop, rd, obj, prop, rd))
+        # an existing member (tmem: lastIndex) cannot be deleted: it is written back to 0 instead
+        undo = ("%s.%s = 0" % (obj, prop)) if existing else ("delete %s.%s" % (obj, prop))
+        src = (setup + "var r = 0; var o = %s; if ((typeof o === 'object' || typeof o === 'function') && o !== null) { "
+               "if (%s === 0) { %s.%s = 7; if (%s === 7) { %s; if (%s === 0) { r = 1 } } } } r"
+               % (obj, rd, obj, prop, rd, undo, rd))
         out = api.run(lambda: s.eval(src), wall=20.0, cap=200000)
         return 1 if out["o"] == "value" and out["pv"] == 1 else 0      # an error: the path cannot be evaluated, not a target
 
@@ -197,36 +346,81 @@ def discover(case, api):
                     rec = {"root": root, "lit": lit, "via": via, "mem": "", "ord": 0}
                     rec["ok"] = test(*target_of(rec))
                     recs.append(rec)
+    for form in sorted(TEXT_FORMS):
+        for via in sorted(TEXT_VIAS):
+            rec = {"root": form, "lit": 2, "via": via, "mem": TEXT_VIAS[via][1] or "", "ord": 0}
+            rec["ok"] = test(*target_of(rec), setup="var h = %s; " % TEXT_FORMS[form], existing=(via == "tmem"))
+            recs.append(rec)
     return {"id": case["id"], "inventory": recs}
 
 
+def work_count(api, lo, hi):
+    """cv_work: the loop count with which the work program takes about (lo + hi) / 2 interpreter steps, measured on a
+    scratch context (two runs: cost per iteration and overhead).  The steps of every real event go back to TLC."""
+    if "n" not in _WORK_N:
+        form = {"cr": "function", "use": "call_direct"}
+
+        def steps(n):
+            c = api.Context()
+            c.eval("var h = " + CARRIERS["function"])
+            out = api.run(lambda: c.eval(render_carry("cv_work", form, 1, n)), cap=200000, wall=60.0)
+            if out["o"] != "value":
+                raise RuntimeError("work calibration failed: %r" % (out,))
+            return out["steps"]
+        a, b = steps(10), steps(110)
+        per = (b - a) / 100.0
+        n = int(round(((lo + hi) / 2.0 - (a - 10 * per)) / per))
+        got = steps(n)
+        if not (lo <= got <= hi):
+            raise RuntimeError("work calibration: %d iterations take %d steps, outside [%d, %d]" % (n, got, lo, hi))
+        _WORK_N["n"] = n
+    return _WORK_N["n"]
+
+
 def replay(case, api):
-    """case = {id, nc, limits: [{t, m}], h: [{c, k}]} -> {tid, nc, ev: [{c,k,x,o,r,pr}]}"""
+    """case = {id, nc, limits: [{t, m}], h: [{c, k}], fam, tj, late, target | form, gap, names, work}
+    -> {tid, nc, tj, cls, ev: [{c,k,x,o,r,w,pr}]}"""
     nc = case["nc"]
-    tj, late = case.get("tj", 0), case.get("late", 0)
-    target = target_of(case["target"]) if tj else None
+    tj, late, fam = case.get("tj", 0), case.get("late", 0), case.get("fam", "")
+    target = target_of(case["target"]) if case.get("target") else None
+    form = case.get("form")
+    reader = reader_of(fam, target, case.get("target")) if fam in ("inv", "text", "kept") else None
+    names = frozenset(case["names"])
+    gap = case["gap"] * TICK
     first = case["h"][0]["c"] - 1
     # late: the contexts other than the first actor's are created after the first event has run
-    ctxs = [new_ctx(api, case["limits"][c], target) if (not late or c == first) else None for c in range(nc)]
+    ctxs = [new_ctx(api, case["limits"][c], reader) if (not late or c == first) else None for c in range(nc)]
+    nwork = work_count(api, case["work"]["lo"], case["work"]["hi"]) if fam == "carry" else 0
     evs = []
     for n, e in enumerate(case["h"], start=1):
         c, k = e["c"], e["k"]
         ctx = ctxs[c - 1][0]
+        # virtual time goes on through the whole history (probes included) and `gap` ticks pass before every event:
+        # an eval's time budget is its own, however long ago earlier evals of the context started
+        if n == 1:
+            api.vclock.now = 0.0
+        api.vclock.now += gap
         if k == "set":
-            out = api.run(lambda: ctx.set("g", n), tick=TICK, cap=50000, wall=60.0)
+            out = api.run(lambda: ctx.set("g", n), tick=TICK, cap=50000, wall=60.0, keep_clock=True)
         elif k == "get":
-            out = api.run(lambda: ctx.get("g"), tick=TICK, cap=50000, wall=60.0)
-        elif k in INV_SNIPPETS:
-            src = INV_SNIPPETS[k] % {"obj": target[0], "prop": target[1], "x": n}
-            out = api.run(lambda: ctx.eval(src), tick=TICK, cap=50000, wall=60.0)
+            out = api.run(lambda: ctx.get("g"), tick=TICK, cap=50000, wall=60.0, keep_clock=True)
         else:
-            t = SNIPPETS[k]
-            src = t % n if "%d" in t else t
-            out = api.run(lambda: ctx.eval(src), tick=TICK, cap=50000, wall=60.0)
+            if k in INV_SNIPPETS:
+                src = INV_SNIPPETS[k] % {"obj": target[0], "prop": target[1], "x": n}
+            elif k.startswith("tx_"):
+                src = render_text(k, case["target"], n, target)
+            elif k.startswith("kb_"):
+                src = render_kept(k, form, n)
+            elif k.startswith("cv_"):
+                src = render_carry(k, form, n, nwork)
+            else:
+                t = SNIPPETS[k]
+                src = t % n if "%d" in t else t
+            out = api.run(lambda: ctx.eval(src), tick=TICK, cap=50000, wall=60.0, keep_clock=True)
         r = cls(out.get("pv")) if out["o"] == "value" else -1
         # the pointer of every context is read first: the probe itself evaluates, which would clear a stale pointer
-        ctxs = [cx if cx is not None else new_ctx(api, case["limits"][j], target) for j, cx in enumerate(ctxs)]
+        ctxs = [cx if cx is not None else new_ctx(api, case["limits"][j], reader) for j, cx in enumerate(ctxs)]
         ptrs = [1 if cx._current_vm is None else 0 for cx, _ in ctxs]
-        evs.append({"c": c, "k": k, "x": n, "o": out["o"], "r": r,
-                    "pr": [probe(api, cx, base, p, inv=bool(tj)) for (cx, base), p in zip(ctxs, ptrs)]})
-    return {"id": case["id"], "tid": case["id"], "nc": nc, "tj": tj, "ev": evs}
+        evs.append({"c": c, "k": k, "x": n, "o": out["o"], "r": r, "w": out.get("steps", 0),
+                    "pr": [probe(api, cx, base, p, names, inv=reader is not None) for (cx, base), p in zip(ctxs, ptrs)]})
+    return {"id": case["id"], "tid": case["id"], "nc": nc, "tj": tj, "cls": case.get("cls", ""), "ev": evs}
